@@ -55,7 +55,8 @@ def describe(tier):
              'Transition = adding one layer.' % (n, KINDS, KEYS, LAYERS),
         nontrivial='at least two layers define the key (an override actually happens).',
         bounds=dict(pairs=n, subsets=8),
-        assumptions=['every state is preceded by a resolution of the same syntax name under the other abbreviation type (and the '
+        assumptions=['every transition is also executed on the live objects: expand() with the dicts of the smaller subset, the new '
+                     'layer written into the same dicts in place, expand() again = expand() with fresh dicts', 'every state is preceded by a resolution of the same syntax name under the other abbreviation type (and the '
                      'same global config)', 'the reference fold reads the *contents* of the built-in tables from a snapshot taken at start-up; their '
                      'precedence is what is checked', 'a `text: None` entry written into the call config by expand() equals absent '
                      '(C08 covers it)', 'syntax name equal to the type name is left unspecified'],
@@ -178,6 +179,16 @@ def check_state(typ, syn, kind, key, subset, top='MARKER'):
                                                       actual=repr(got.get(key, '<absent>'))[:80], layers=list(subset))))
         else:
             bad.append(('untouched-key-changed:%s' % kind, dict(keys=diff[:6], layers=list(subset))))
+    if len(g0) > 1:
+        # the order in which the caller happened to write the entries of the global config is not a layer order
+        try:
+            got_r = getattr(Config(copy.deepcopy(u0), dict(reversed(list(copy.deepcopy(g0).items())))), kind)
+        except Exception as e:
+            got_r = 'EXC:' + type(e).__name__
+        if got_r != exp:
+            bad.append(('precedence-depends-on-dict-order:%s' % kind, dict(key=key, layers=list(subset),
+                                                                           actual=repr(got_r.get(key, '<absent>') if isinstance(got_r, dict) else got_r)[:80],
+                                                                           expected=repr(exp.get(key, '<absent>'))[:80])))
     for other in KINDS:
         if other != kind and getattr(cfg, other) != fold(typ, syn, other, user, glob):
             bad.append(('other-kind-disturbed:%s' % other, dict(kind=kind, layers=list(subset))))
@@ -213,6 +224,42 @@ def check_state(typ, syn, kind, key, subset, top='MARKER'):
     return bad, (repr(got.get(key, '<absent>'))[:40], None)
 
 
+def assign_in_place(dst, src):
+    "make dict dst equal to src without replacing dst (nested dicts are updated in place too)"
+    for k in list(dst):
+        if k not in src:
+            del dst[k]
+    for k, v in src.items():
+        if isinstance(v, dict) and isinstance(dst.get(k), dict):
+            assign_in_place(dst[k], v)
+        else:
+            dst[k] = copy.deepcopy(v)
+
+
+def check_live_transition(typ, syn, kind, key, sub, sub2):
+    "the caller adds a layer to the very dicts it passed before: the next call sees the new contents"
+    pr = probe(typ, kind, key)
+    if pr is None:
+        return []
+    user, glob = build(typ, syn, kind, key, sub)
+    user2, glob2 = build(typ, syn, kind, key, sub2)
+
+    def ex(u, g):
+        try:
+            return expand(pr, u, g)
+        except Exception as e:
+            return 'EXC:' + type(e).__name__
+    ex(user, glob)
+    user.pop('text', None) if user.get('text', 0) is None else None
+    assign_in_place(user, user2)
+    assign_in_place(glob, glob2)
+    live = ex(user, glob)
+    fresh = ex(copy.deepcopy(user2), copy.deepcopy(glob2))
+    if live != fresh:
+        return [('layer-added-in-place-not-seen:%s' % kind, dict(key=key, probe=pr, before=list(sub), after=list(sub2), live=live[:120], fresh=fresh[:120]))]
+    return []
+
+
 def run_shard(shard, ctx, tier):
     typ, syn = shard['type'], shard['syntax']
     for kind in KINDS:
@@ -246,12 +293,19 @@ def run_shard(shard, ctx, tier):
                     for l in LAYERS:
                         if l not in sub:
                             ctx.transitions += 1
-                            nxt.append(tuple(x for x in LAYERS if x in sub or x == l))
+                            sub2 = tuple(x for x in LAYERS if x in sub or x == l)
+                            nxt.append(sub2)
+                            ctx.evals += 2
+                            ctx.validated += 1
+                            for cls, d in check_live_transition(typ, syn, kind, key, sub, sub2):
+                                ctx.violation(cls, dict(type=typ, syntax=syn, kind=kind, key=key, layers=list(sub), then=list(sub2)), d)
                 frontier = nxt
     ctx.sample(dict(type=typ, syntax=syn, kind='snippets', key='!!!', layers=list(LAYERS)))
 
 
 def check_case(case):
+    if 'then' in case:
+        return check_live_transition(case['type'], case['syntax'], case['kind'], case['key'], tuple(case['layers']), tuple(case['then']))
     top = case.get('top', 'MARKER')
     bad, _ = check_state(case['type'], case['syntax'], case['kind'], case['key'], tuple(case['layers']), top)
     return [(c + ':value=%r' % (top,), d) for c, d in bad] if 'top' in case else bad
